@@ -488,11 +488,98 @@ func c09Space(c *mc.Check, depth int) {
 	f.Done()
 }
 
+// c09Ladder: the whole ladder of SI and IEC prefixes under "num".
+func c09Ladder(c *mc.Check) {
+	var vals []string
+	for _, m := range []string{"1", "2", "1.5", "1023", "0.5"} {
+		for _, p := range []string{"", "k", "K", "M", "G", "T", "P", "E", "Z", "Y"} {
+			for _, i := range []string{"", "i"} {
+				if p == "" && i == "i" {
+					continue
+				}
+				for _, b := range []string{"", "B"} {
+					vals = append(vals, m+p+i+b)
+				}
+			}
+		}
+	}
+	vals = append(vals, "999", "1000", "1024", "1e3", "1e24", "1.1e24", "1e30", "NaN", "x", "-1", "0")
+	check := func(order []int) string {
+		var pp ProjectionParser
+		p, err := pp.Parse("k@num", nil)
+		if err != nil {
+			return err.Error()
+		}
+		keys := make([]Key, len(vals))
+		for _, i := range order {
+			keys[i] = p.Project(presult{Name: "X", Cfg: [][3]string{{"k", vals[i], "f"}}, Units: []string{"u"}}.build())
+		}
+		for i := range vals {
+			for j := range vals {
+				if i == j {
+					continue
+				}
+				lij, lji := keys[i].Less(keys[j]), keys[j].Less(keys[i])
+				if lij == lji {
+					return fmt.Sprintf("k@num: %q and %q: Less both ways = %v", vals[i], vals[j], lij)
+				}
+				switch c := orderNum(vals[i], vals[j]); {
+				case c < 0 && !lij:
+					return fmt.Sprintf("k@num: %q must sort before %q (numeric value with SI/IEC prefix), Less says otherwise", vals[i], vals[j])
+				case c > 0 && lij:
+					return fmt.Sprintf("k@num: %q must sort after %q (numeric value with SI/IEC prefix), Less says otherwise", vals[i], vals[j])
+				}
+			}
+		}
+		s := append([]Key{}, keys...)
+		SortKeys(s)
+		for i := 1; i < len(s); i++ {
+			if !s[i-1].Less(s[i]) {
+				return "SortKeys output not sorted"
+			}
+		}
+		return ""
+	}
+	replay := func(raw json.RawMessage) string {
+		var order []int
+		json.Unmarshal(raw, &order)
+		var msg string
+		if p := mc.Catch(func() { msg = check(order) }); p != "" {
+			return p
+		}
+		return msg
+	}
+	f := c.Family("num-prefix-ladder", fmt.Sprintf("projection k@num over %d values: every SI prefix k/K…Y and IEC prefix Ki…Yi with and without B, 5 mantissas, plain and exponent numbers, NaN and non-numbers, observed forwards and backwards: all ordered pairs compared with the reference numeric order, totality, SortKeys sorted; non-trivial = every pair of distinct values", len(vals)), replay)
+	if c.Replaying() {
+		return
+	}
+	fw := make([]int, len(vals))
+	bw := make([]int, len(vals))
+	for i := range fw {
+		fw[i], bw[i] = i, len(vals)-1-i
+	}
+	for _, order := range [][]int{fw, bw} {
+		var msg string
+		if p := mc.Catch(func() { msg = check(order) }); p != "" {
+			msg = p
+		}
+		n := int64(len(vals) * (len(vals) - 1))
+		f.Count(n, n)
+		f.Outcome(fmt.Sprintf("ok=%v", msg == ""), 1)
+		if msg != "" {
+			c.Fail(f, "sort-num-ladder", order, msg)
+		}
+	}
+	f.Sample(vals[:12])
+	f.Done()
+}
+
 func TestVerifC09(t *testing.T) {
 	c := mc.NewCheck("C09")
 	c.Assume("reference comparators written from the documentation; pairs the documented field order does not separate (1k vs 1000, two non-numbers under num) are only required to satisfy the order axioms")
 	c.Assume("a missing value counts as the empty value, observed when the result lacking it is projected")
 	c09Space(c, mc.Pick(c, 6, 7))
+	c09Ladder(c)
 	if code := c.Finish(); code != 0 {
 		os.Exit(code)
 	}
